@@ -76,8 +76,45 @@ func c17Data(r *rng.R) *document.TemplateData {
 	d.SetList("rows", rows)
 	// a picture of a random format for {{#image pic}} placeholders (unique bytes per data set)
 	im := gen.MakeImage([]string{"png", "jpeg", "gif"}[r.Intn(3)], 50000+r.Intn(1<<20), r.Range(2, 9), r.Range(2, 9))
+	if c17FileDir != "" && r.Chance(1, 3) {
+		// the picture given by a relative file name (the worker's current directory is its scratch directory); the file exists
+		// below the engine's base path as well, so the case does not depend on whether the engine honours that option for pictures
+		name := fmt.Sprintf("pic%d.%s", im.Serial, im.Format)
+		os.MkdirAll(filepath.Join(c17FileDir, "assets"), 0755)
+		os.WriteFile(filepath.Join(c17FileDir, name), im.Data, 0644)
+		os.WriteFile(filepath.Join(c17FileDir, "assets", name), im.Data, 0644)
+		d.SetImage("pic", name, nil)
+		return d
+	}
 	d.SetImageFromData("pic", im.Data, nil)
 	return d
+}
+
+// c17FileDir is the worker's scratch directory once the worker has made it its current directory ("" before).
+var c17FileDir string
+
+// c17UseScratchAsCwd makes the scratch directory the current directory of this worker process (C17 workers run C17 cases only
+// and the harness itself uses absolute paths), removes the picture files of earlier cases, and draws the engine's base path.
+func c17UseScratchAsCwd(c *core.Ctx, r *rng.R, eng *document.TemplateEngine, res *core.Result) {
+	if c.WorkDir == "" || !filepath.IsAbs(c.WorkDir) || os.Chdir(c.WorkDir) != nil {
+		c17FileDir = ""
+		return
+	}
+	c17FileDir = c.WorkDir
+	if old, _ := filepath.Glob(filepath.Join(c.WorkDir, "pic*.*")); len(old) > 200 {
+		for _, f := range old {
+			os.Remove(f)
+			os.Remove(filepath.Join(c.WorkDir, "assets", filepath.Base(f)))
+		}
+	}
+	switch r.Intn(3) {
+	case 0:
+		eng.SetBasePath("assets")
+		res.Count("engines_with_relative_base_path", 1)
+	case 1:
+		eng.SetBasePath(filepath.Join(c.WorkDir, "assets"))
+		res.Count("engines_with_absolute_base_path", 1)
+	}
 }
 
 func c17Body(r *rng.R, tag string) string {
@@ -161,6 +198,7 @@ type c17Loaded struct {
 func c17Sequential(c *core.Ctx, r *rng.R) *core.Result {
 	res := &core.Result{}
 	eng := document.NewTemplateEngine()
+	c17UseScratchAsCwd(c, r, eng, res)
 	loaded := map[string]*c17Loaded{}
 	var order []string
 	var log []string
@@ -563,6 +601,7 @@ var cacheModel = porcupine.Model{
 func c17Concurrent(c *core.Ctx, r *rng.R) *core.Result {
 	res := &core.Result{}
 	eng := document.NewTemplateEngine()
+	c17UseScratchAsCwd(c, r, eng, res)
 	nClients := r.Range(2, 4)
 	if c.Race {
 		nClients = r.Range(2, 8)
